@@ -31,7 +31,7 @@ REQUIRED_MONITORS = ["weights_nonnegative", "weights_sum_to_one", "flat_unchange
 REQUIRED_BUCKETS = {"quick": ["geom:pinhole", "geom:slit(L,0)", "geom:slit(0,W)", "geom:slit(L,W)", "geom:2d",
                               "grid:linear", "grid:log", "grid:irregular", "qcalc:default", "qcalc:user", "n:1", "n:2",
                               "sigma>q", "zero_width", "grid_extension_hits_zero", "perpoint", "directmodel", "directmodel:mixed-zero", "directmodel:widths-changed-on-same-data-object", "q-order:not-ascending", "acc:low", "acc:med", "acc:high",
-                              "acc:xhigh", "2d:on-axis-pixels"]}
+                              "acc:xhigh", "2d:on-axis-pixels", "q-grid:value-listed-twice"]}
 REQUIRED_BUCKETS["thorough"] = REQUIRED_BUCKETS["quick"]
 
 _state = {"installed": False, "current": None, "evals": 0}
@@ -194,6 +194,12 @@ def run_batch(case, rec):
             # the same points listed in another order (descending scans, merged files)
             q = q[::-1].copy() if (case["batch"] + k) % 2 else q[rng.permutation(n)]
             rec.bucket("q-order:not-ascending")
+        if k % 11 == 6 and n > 2 and geom != "2d":
+            # a measured grid that lists a q value twice (merged detector settings that overlap in one point)
+            j_ = int(rng.integers(n))
+            q = np.insert(q, j_, q[j_])
+            n = len(q)
+            rec.bucket("q-grid:value-listed-twice")
         hits_zero = (geom == "pinhole" and k == 2)
         if hits_zero:
             # constructive: the symmetric linear extension of this grid lands exactly on q = 0
